@@ -11,7 +11,11 @@ fn rules() -> Vec<&'static str> {
     vec!["/tagpat/$tag=alpha", "||r1.example^$redirect=a", "||c1.example^$csp=b", "||ads.example.com^", "/banner/*/img^", "@@||good.example.com^$script", "||t.example^$tag=alpha", "||r.example^$redirect=noop.js",
          "||c.example^$csp=script-src 'none'", "||i.example^$important", "*$image,domain=foo.com|bar.com", "/re[0-9]+x/",
          "##.generic", "###gid", "a.com##.site", "a.com#@#.generic", "b.com##+js(sc, a, 1)", "b.com#@#+js()", "a.com##.x:style(color: red)",
-         "a.com##.y:has-text(ad)", "c.com#@#.y:has-text(ad)", "example.*##.ent"]
+         "a.com##.y:has-text(ad)", "c.com#@#.y:has-text(ad)", "example.*##.ent",
+         // a scriptlet injection that no blanket exception removes, with a quoted argument (one changed byte makes the argument list malformed)
+         "d.com##+js(sc, 'q', 1)",
+         // a one-character pattern: one flipped mask bit makes it a "full regex" whose slashes are not there
+         "x$xmlhttprequest", "é$xmlhttprequest"]
 }
 
 fn exercise(e: &mut Engine) {
@@ -19,13 +23,14 @@ fn exercise(e: &mut Engine) {
     for (u, s, t) in [("https://ads.example.com/a.js", "https://a.com/", "script"), ("https://t.example/x", "https://b.com/", "image"),
                       ("https://c.example/", "https://c.example/", "document"), ("https://x.test/re12x", "https://foo.com/", "image"),
                       ("https://r.example/x.js", "https://a.com/", "script"), ("https://r1.example/x.js", "https://a.com/", "script"),
-                      ("https://c1.example/", "https://c1.example/", "document"), ("https://x.test/tagpat/", "https://a.com/", "image")] {
+                      ("https://c1.example/", "https://c1.example/", "document"), ("https://x.test/tagpat/", "https://a.com/", "image"),
+                      ("https://q.test/é/x", "https://a.com/", "xmlhttprequest")] {
         if let Ok(r) = Request::new(u, s, t) {
             let _ = e.check_network_request(&r);
             let _ = e.get_csp_directives(&r);
         }
     }
-    for u in ["https://a.com/", "https://b.com/p", "https://sub.c.com/", "https://example.org/"] {
+    for u in ["https://a.com/", "https://b.com/p", "https://sub.c.com/", "https://example.org/", "https://d.com/"] {
         let _ = e.url_cosmetic_resources(u);
     }
     let _ = e.hidden_class_id_selectors(["generic", "site"], ["gid"], &Default::default());
